@@ -159,16 +159,52 @@ func init() {
 		return s, true
 	})
 	regModel("(*bytes.Buffer).WriteTo", func(x *Exec, fr *Frame, st *State, a []Value, pos token.Pos, rt types.Type) (Value, bool) {
-		// drains the buffer into the writer (which is called; see the writer's own model/havoc)
+		// WriteTo calls w.Write exactly once with the unread bytes (if any) and drains what was
+		// accepted; it returns the writer's error (or io.ErrShortWrite).
 		b := tOf(a[0])
 		bufNil(x, fr, st, b, "WriteTo", pos)
 		l := x.bufLen(st, b)
-		n := x.vc.Fresh("wton", SInt)
-		e := x.freshErr("wtoerr")
-		x.assume(st, And(Le(IntLit(0), n), Le(n, l), Implies(Eq(e.Tag, IntLit(0)), Eq(n, l))))
-		x.setBufLen(st, b, x.vc.Name(Sub(l, n), "blen"))
-		x.writerEffect(fr, st, a[1], pos)
-		return VStruct{F: []Value{VTerm{n}, e}}, true
+		wt := x.eng.namedType("io", "Writer")
+		it, _ := wt.Underlying().(*types.Interface)
+		if it == nil {
+			return nil, false
+		}
+		var sig *types.Signature
+		for i := 0; i < it.NumMethods(); i++ {
+			if it.Method(i).Name() == "Write" {
+				sig = it.Method(i).Type().(*types.Signature)
+			}
+		}
+		chunk := x.fresh(types.NewSlice(types.Typ[types.Uint8]), "wto.chunk").(VSlice)
+		x.assume(st, Eq(chunk.Len, l))
+		// empty buffer: no call
+		s2 := st.clone()
+		s2.pc = x.vc.Name(And(st.pc, Gt(l, IntLit(0))), "wto")
+		res := x.invokeCore(fr, s2, fr.curBlk.Instrs[0], wt, "Write", sig, []Value{chunk}, a[1], sig.Results(), pos)
+		s1 := st.clone()
+		s1.pc = And(st.pc, Not(Gt(l, IntLit(0))))
+		var n Term = IntLit(0)
+		var e VIface = nilErr()
+		if rs, ok := res.(VStruct); ok && len(rs.F) == 2 {
+			n = tOf(rs.F[0])
+			if ev, ok := rs.F[1].(VIface); ok {
+				e = ev
+			}
+		}
+		short := x.freshErr("shortwrite")
+		x.vc.Assert(Neq(short.Tag, IntLit(0)))
+		m := x.mergeStates([]edge{{nil, TTrue, s2}, {nil, TTrue, s1}})
+		pc := st.pc
+		nonEmpty := Gt(l, IntLit(0))
+		*st = *m
+		st.pc = pc
+		nn := x.vc.Name(Ite(nonEmpty, n, IntLit(0)), "wton")
+		x.assume(st, And(Le(IntLit(0), nn), Le(nn, l)))
+		// error: the writer's, or ErrShortWrite when it accepted less without error
+		etag := x.vc.Name(Ite(nonEmpty, Ite(And(Eq(e.Tag, IntLit(0)), Lt(nn, l)), short.Tag, e.Tag), IntLit(0)), "wtoerr.t")
+		eval := x.vc.Name(Ite(nonEmpty, Ite(And(Eq(e.Tag, IntLit(0)), Lt(nn, l)), short.Val, e.Val), IntLit(0)), "wtoerr.v")
+		x.setBufLen(st, b, x.vc.Name(Sub(x.bufLen(st, b), nn), "blen"))
+		return VStruct{F: []Value{VTerm{nn}, VIface{etag, eval}}}, true
 	})
 	regModel("(*bytes.Buffer).ReadFrom", func(x *Exec, fr *Frame, st *State, a []Value, pos token.Pos, rt types.Type) (Value, bool) {
 		b := tOf(a[0])
